@@ -18,3 +18,33 @@ template class opentelemetry::nostd::shared_ptr<verif_tu::Obj>;
 template class opentelemetry::nostd::unique_ptr<verif_tu::Obj>;
 template class opentelemetry::nostd::span<int>;
 template class opentelemetry::nostd::span<int, 4>;
+
+#include <functional>
+#include <memory>
+namespace verif_tu
+{
+struct Base
+{
+  virtual ~Base() {}
+};
+struct Derived : Base
+{};
+// instantiates every assignment overload of nostd::unique_ptr (same type, converting, from std::unique_ptr, nullptr)
+inline void use_unique_conversions(opentelemetry::nostd::unique_ptr<Base> &b,
+                                   opentelemetry::nostd::unique_ptr<Base> &&b2,
+                                   opentelemetry::nostd::unique_ptr<Derived> &&d,
+                                   std::unique_ptr<Derived> &&sd)
+{
+  b = std::move(b2);
+  b = std::move(d);
+  b = std::move(sd);
+  b = nullptr;
+  b.reset();
+  b.swap(b2);
+  (void)b.release();
+}
+inline std::size_t use_string_view_hash(opentelemetry::nostd::string_view v)
+{
+  return std::hash<opentelemetry::nostd::string_view>{}(v);
+}
+}  // namespace verif_tu
